@@ -26,10 +26,22 @@ def IndexOk (w : World) : Prop :=
   w.disk.hasIndex = true → (∀ s, w.sess = some s → s.linked = true → s.stale = false) →
     w.disk.index = buildIndex w.disk.items
 
+/-- An indexable in-memory store that holds trajectories has a stale index (nothing has indexed them yet): this is what
+    makes `save` followed by a lookup rebuild the index of the new file. -/
+def MemStale (w : World) : Prop :=
+  ∀ s, w.sess = some s → s.mem = true → s.indexable = some true → s.cache.entries ≠ [] → s.stale = true
+
 structure WInv (w : World) : Prop where
   disk : DiskInv w.disk
   sess : ∀ s, w.sess = some s → SessInv w.disk s
   index : IndexOk w
+  memStale : MemStale w
+
+theorem MemStale.of_none {w : World} (h : w.sess = none) : MemStale w := by
+  intro s hs; rw [h] at hs; cases hs
+
+theorem MemStale.of_not_mem {d : Disk} {s : Sess} (h : s.mem = false) : MemStale ⟨d, some s⟩ := by
+  intro s' hs' hm; cases hs'; rw [h] at hm; cases hm
 
 def absSchema (d : Disk) (s : Sess) : Option (Nat × Bool) :=
   match s.indexable with
@@ -48,7 +60,8 @@ def absW (w : World) : Spec :=
     sess := w.sess.map (absSess w.disk) }
 
 theorem init_inv : WInv World.init := by
-  refine ⟨⟨by simp [World.init, Disk.absent], by simp [World.init, Disk.absent]⟩, by simp [World.init], ?_⟩
+  refine ⟨⟨by simp [World.init, Disk.absent], by simp [World.init, Disk.absent]⟩, by simp [World.init], ?_,
+    MemStale.of_none rfl⟩
   simp [IndexOk, World.init, Disk.absent]
 
 theorem abs_init : absW World.init = Spec.init := by
@@ -66,7 +79,7 @@ theorem closeSess_disk_items (w : World) : (closeSess w).disk.items = w.disk.ite
 
 theorem closeSess_inv (w : World) (h : WInv w) : WInv (closeSess w) := by
   obtain ⟨hi, hp, hf, hx, hs⟩ := closeSess_disk_items w
-  refine ⟨⟨?_, ?_⟩, ?_, ?_⟩
+  refine ⟨⟨?_, ?_⟩, ?_, ?_, MemStale.of_none hs⟩
   · rw [hp, hi]; exact h.disk.absent
   · rw [hi, hf, hx]; exact h.disk.uniform
   · intro s hs'; rw [hs] at hs'; cases hs'
